@@ -87,9 +87,16 @@ void h_future_wait(void)
 {
     setup();
     size_t c0 = fu.counter.val;
-    unsigned w0 = vf_wl_waits, r0 = vf_releases;
-    lp_ABTI_local = NULL;
+    unsigned w0 = vf_wl_waits, r0 = vf_releases, a0 = vf_acquires;
+    /* caller: an external thread, a ULT, or a tasklet (refused by the 1.x API) */
+    static ABTI_xstream cxs; static ABTI_thread cth; int kind; VF_ASSUME(0 <= kind && kind <= 2);
+    cxs.p_thread = &cth; cth.type = (kind == 1) ? ABTI_THREAD_TYPE_YIELDABLE : 0; lp_ABTI_local = kind == 0 ? NULL : (ABTI_local *)&cxs;
     int r = ABT_future_wait((ABT_future)&fu);
+    if (kind == 2) {
+        VF_ASSERT(r == ABT_ERR_FUTURE && vf_wl_waits == w0 && fu.counter.val == c0, "a tasklet may not wait: refused, nothing enqueued");
+        VF_ASSERT(vf_lock_held == 0 && vf_acquires - a0 == vf_releases - r0, "... and the future's lock is NOT left held (a refused wait must not wedge every later set)");
+        VF_REACH("future_wait refused"); return;
+    }
     VF_ASSERT(r == ABT_SUCCESS && vf_lock_held == 0 && vf_releases == r0 + 1, "lock released exactly once");
     VF_ASSERT(vf_wl_waits == w0 + (c0 < fu.num_compartments ? 1 : 0), "waits iff not full was observed under the lock");
     VF_ASSERT(fu.counter.val == fu.num_compartments, "returns only once the future is ready");
